@@ -63,6 +63,12 @@ fn compute_publish_packet_length_properties5(packet: &PublishPacket, alias_resol
         total_remaining_length += payload.len();
     }
 
+    if total_remaining_length > MAXIMUM_VARIABLE_LENGTH_INTEGER {
+        let message = "compute_publish_packet_length_properties5 - remaining length exceeds the protocol maximum (2 ^ 28 - 1)";
+        error!("{}", message);
+        return Err(GneissError::new_encoding_failure(message));
+    }
+
     Ok((total_remaining_length as u32, publish_property_section_length as u32))
 }
 
